@@ -118,18 +118,28 @@ func (dss *dataStoreSet) getDb(index int, create bool) (ds *dataStore, valid boo
 	return
 }
 
-func (dss *dataStoreSet) flushDb(index int) {
+// empties every database in place, so that every connected client - not only
+// the caller - works on the flushed databases afterwards
+func (dss *dataStoreSet) flushAll(caller *dataStoreCommand) {
 	dss.mu.Lock()
-	defer dss.mu.Unlock()
+	stores := make([]*dataStore, 0, len(dss.dbs))
+	for _, ds := range dss.dbs {
+		stores = append(stores, ds)
+	}
+	dss.mu.Unlock()
 
-	delete(dss.dbs, index)
-}
+	// locks of several data stores are taken one after the other
+	multiDataStoreLock.Lock()
+	defer multiDataStoreLock.Unlock()
 
-func (dss *dataStoreSet) flushAll() {
-	dss.mu.Lock()
-	defer dss.mu.Unlock()
-
-	dss.dbs = map[int]*dataStore{}
+	for _, ds := range stores {
+		if ds == caller.ds {
+			// the caller may already own this data store (MULTI)
+			caller.flush()
+		} else {
+			ds.newDataStoreCommand().flush()
+		}
+	}
 }
 
 func (dss *dataStoreSet) getUser(userName string) (dsu *dataStoreUser, exists bool) {
